@@ -8,7 +8,7 @@ from harness import gen
 from harness.framework import Suite
 
 PID = "C03"
-LEAN_MODS = ["SwcVerif.Props.C03", "SwcVerif.Props.C03Cat", "SwcVerif.Props.C03Gen"]
+LEAN_MODS = ["SwcVerif.Props.C03", "SwcVerif.Props.C03Cat", "SwcVerif.Props.C03Gen", "SwcVerif.Props.C03Init"]
 # Gen/AlgoCtor.lean: `_copy_and_apply` and the copying spellings of swc_utils/normalizer.py, regenerated on every run over a heap of frame
 # objects (the in-place procedures they apply live in AlgoNormalizer / AlgoSort / AlgoRepair, on AlgoCheckers / AlgoDsu)
 # Gen/AlgoCtorInit.lean: `Tree.__init__` and `padding1d` over a heap of numpy buffers
@@ -25,6 +25,12 @@ THEOREMS = [
     "RefineCtor.link_roots_to_nearest_eq",
     "C03.generated_copy_and_apply_pure", "C03.generated_copy_and_apply_eq", "C03.generated_mark_roots_as_somas_pure", "C03.generated_reset_index_pure",
     "C03.generated_sort_nodes_pure", "C03.generated_link_roots_to_nearest_pure", "C03.generated_copying_eq",
+    # Tree.__init__ / padding1d as generated on this run (Gen/AlgoCtorInit.lean) over a heap of numpy buffers: what is written (nothing that
+    # existed), what is fresh and what IS the caller's array
+    "RefineCtorInit.pad_none", "RefineCtorInit.pad_alias", "RefineCtorInit.pad_short", "RefineCtorInit.pad_cast",
+    "RefineCtorInit.padding1d_none_ok", "RefineCtorInit.padding1d_some_ok", "RefineCtorInit.tree_init_eq", "RefineCtorInit.step_ok",
+    "RefineCtorInit.padAll_ok", "RefineCtorInit.tree_init_ok",
+    "C03.generated_padding1d_spec", "C03.generated_tree_init_spec", "C03.generated_tree_init_given",
 ]
 TRUSTED = ["the per-operation models of C05 (sort), C06 (subtree / prune / cut), C07 (re-root, concatenate), C09 (heap: copies allocate), C12 (transforms touch only x, y, z), "
            "each tied to the code by its own correspondence suite; this property's suite checks the composition on the real library"]
